@@ -3508,7 +3508,16 @@ fn hostile_case(args: &Args, idx: u64, rng: &mut Rng, rep: &mut Report) {
 			let mut plist: Vec<Vec<u8>> = Vec::new();
 			match mode {
 				0 => {
-					let first = match rng.below(8) {
+					let first = match rng.below(10) {
+						8 | 9 => {
+							// a well-formed error or warning (zero or non-zero channel id) as the very first message
+							let mut body: Vec<u8> = if rng.chance(1, 3) { vec![0u8; 32] } else { rng.vec(32) };
+							let text = rvec(rng, |r| r.below(80) as usize);
+							body.extend_from_slice(&(text.len() as u16).to_be_bytes());
+							body.extend_from_slice(&text);
+							rep.count("non_init_first_error_or_warning");
+							with_type(if rng.chance(2, 3) { 17 } else { 1 }, &body)
+						},
 						0 | 1 => gen_custom(rng, 0).payload(),
 						2 | 3 => chan_payload(rng, 0),
 						4 => ping_payload(4, 4),
